@@ -1,4 +1,5 @@
 mod c01;
+mod c11;
 mod c16;
 mod eng;
 mod probe;
@@ -45,6 +46,8 @@ fn main() {
     let mut out = out::Out::new(&outdir, seed, &tier);
     match prop.as_str() {
         "C16" => c16::run(&mut rng, &mut out, &tier),
+        "C11" => c11::run(&mut rng, &mut out, &tier, false, "C11"),
+        "C12" => c11::run(&mut rng, &mut out, &tier, true, "C12"),
         "probe" => probe::run(),
         "C01" => c01::run(&mut rng, &mut out, &tier),
         _ => {
